@@ -51,11 +51,14 @@ def neg(k):
 def gen_case(rng, quick=True):
     mode = rng.choice(["1d", "1d", "2d-int", "3d-int", "3d-int", "3d-float", "3d-float"])
     kind, kdim = MODES[mode]
-    case = {"mode": mode, "kvalue": 1.0, "kgrid": None, "share": rng.random() < 0.75, "twice": rng.random() < 0.5}
+    case = {"mode": mode, "kvalue": 1.0, "kgrid": None, "share": rng.random() < 0.75, "twice": rng.random() < 0.5,
+            # how the durations reach D(...): python float, numpy scalar, 0-d float ndarray, 1-element float ndarray
+            "tau_form": rng.choice(["float", "float", "np.float64", "0d", "0d", "1el"])}
     if kind == "int":
         case["kvalue"] = float(rng.choice([5000, 10000, 20000, 40000]))
     else:
         case["kgrid"] = KGRID
+        case["kvalue"] = float(rng.choice([1, 1, 2, 4]))      # float shifts count multiples of kvalue too (on the grid)
     dirs = []
     while len(dirs) < rng.randint(1, 3):
         d = gen_shift(rng, mode)
@@ -124,7 +127,21 @@ def dval(D):
     return D if isinstance(D, float) else np.array(D, dtype=float)
 
 
-def make_op(case, spec):
+def tauval(case, x, cache):
+    """the duration as the user passes it; with shared operators equal durations are one and the same array object"""
+    form = case.get("tau_form", "float")
+    if form == "float":
+        return float(x)
+    if form == "np.float64":
+        return np.float64(x)
+    if case["share"] and x in cache:
+        return cache[x]
+    v = np.asarray(float(x)) if form == "0d" else np.array([float(x)])
+    cache[x] = v
+    return v
+
+
+def make_op(case, spec, taucache=None):
     import epgpy as epg
     kind, kdim = MODES[case["mode"]]
     if spec["op"] == "T":
@@ -134,7 +151,8 @@ def make_op(case, spec):
         k = int(k) if case["mode"] == "1d" else np.array(k, dtype=int if kind == "int" else float)
     if spec["op"] == "S":
         return epg.S(k) if case["mode"] == "1d" else epg.S(k, prune=0)
-    return epg.D(spec["tau"], dval(spec["D"])) if k is None else epg.D(spec["tau"], dval(spec["D"]), k)
+    tau = tauval(case, spec["tau"], {} if taucache is None else taucache)
+    return epg.D(tau, dval(spec["D"])) if k is None else epg.D(tau, dval(spec["D"]), k)
 
 
 def canon(v):
@@ -158,13 +176,13 @@ class Pool:
     """operator objects of one case: equal specs are one object when the case shares operators"""
 
     def __init__(self, case):
-        self.case, self.memo, self.objs = case, {}, []
+        self.case, self.memo, self.objs, self.taucache = case, {}, [], {}
 
     def get(self, spec):
         key = repr(sorted(spec.items(), key=lambda kv: kv[0]))
         if self.case["share"] and key in self.memo:
             return self.memo[key]
-        op = make_op(self.case, spec)
+        op = make_op(self.case, spec, self.taucache)
         self.memo[key] = op
         self.objs.append((spec, op, attr_snapshot(op)))
         return op
@@ -457,7 +475,7 @@ def oracle_disagrees(case, specs, final, coords):
     impl = {}
     g = case["kgrid"]
     if g:       # gridded back-end: stored coordinates are binary64 multiples of the grid step; identify states by grid index
-        ref = {tuple(x / F(g) for x in k): v for k, v in ref.items()}
+        ref = {tuple(x * F(case["kvalue"]) / F(g) for x in k): v for k, v in ref.items()}      # wavenumber = coordinate * kvalue
         if any(x.denominator != 1 for k in ref for x in k):
             raise RuntimeError("generator produced an off-grid shift")
     # CONTENT per coordinate: rows whose three amplitudes are exactly zero are empty (the gridded / merging back-ends
@@ -470,8 +488,9 @@ def oracle_disagrees(case, specs, final, coords):
         if coords is None:
             key = (F(i - n),) + tuple(F(0) for _ in range(kdim - 1))
         elif g:
-            key = tuple(F(round(float(x) / g)) for x in coords[i])
-            if max(abs(float(x) / g - round(float(x) / g)) for x in coords[i]) > 1e-6:
+            kvg = case["kvalue"] / g
+            key = tuple(F(round(float(x) * kvg)) for x in coords[i])
+            if max(abs(float(x) * kvg - round(float(x) * kvg)) for x in coords[i]) > 1e-6:
                 return "stored coordinate %s of a non-empty state is not on the grid" % (coords[i],)
         else:
             key = tuple(F(float(x)) for x in coords[i])
@@ -544,7 +563,7 @@ def exercise(case, on_d=None):
 
 def sig(case):
     return {"mode": case["mode"], "npulse": sum(1 for sp in case["ops"] if sp["op"] == "T"), "share": case["share"],
-            "twice": case["twice"], "second_sequence": case["ops2"] is not None,
+            "twice": case["twice"], "tau_form": case.get("tau_form", "float"), "second_sequence": case["ops2"] is not None,
             "D": sorted({"scalar" if isinstance(sp["D"], float) else "tensor" for sp in case["ops"] if sp["op"] == "D"})}
 
 
@@ -593,6 +612,7 @@ def run(ctx):
                     cnt[repr(sp)] = cnt.get(repr(sp), 0) + 1
             reuse["max_applications_of_one_D_object"] = max([reuse["max_applications_of_one_D_object"]] + list(cnt.values()))
         reuse["second_sequence"] += case["ops2"] is not None
+        reuse["tau_" + case["tau_form"]] = reuse.get("tau_" + case["tau_form"], 0) + 1
         reuse["simulate_twice"] += bool(case["twice"])
         ctx.count(case, nontrivial=sig(case)["npulse"] >= 2)
         ctx.sample({"case": sig(case), "kvalue": case["kvalue"], "nops": len(case["ops"])})
